@@ -23,7 +23,9 @@ vars == <<req, stage, attrs, outcome, log, stale>>
 ScatKinds == {"sphere", "layered", "spheres_mie", "spheres_multisphere", "spheroid", "cylinder", "sphere_mielens"}
 \* multichannel_permuted: two illumination channels whose wavelength, polarisation and scaling are
 \* given per channel as dictionaries, each listing the channels in its own order (none in the detector's)
-DetKinds == {"square", "rect_aniso", "shifted_origin", "one_by_n", "points", "multichannel", "multichannel_permuted"}
+\* pixel_subset: the detector is a flat random subset of a grid's pixels;  raised_plane: a grid whose own z is not 0
+DetKinds == {"square", "rect_aniso", "shifted_origin", "one_by_n", "points", "multichannel", "multichannel_permuted",
+             "pixel_subset", "raised_plane"}
 Pols == {"x", "z24_3", "z24_8", "unnormalised", "unnormalised3"}   \* the last given with three components
 Alphas == {"zero", "one", "fraction", "negative"}
 Where == {"kw", "det", "both", "missing"}
@@ -43,7 +45,7 @@ FirstMissing(r) == IF Src(r.wl) = "none" THEN "wavelength"
                    ELSE IF Src(r.mi) = "none" THEN "medium refractive index"
                    ELSE IF Src(r.po) = "none" THEN "polarization" ELSE "nothing"
 
-Catalogue == 1..11           \* stale-state catalogue, concretised by the harness
+Catalogue == 1..12           \* stale-state catalogue, concretised by the harness
 
 Init ==
    \/ /\ Mode = "request" /\ req \in Requests /\ stage = "start" /\ attrs = <<>> /\ outcome = "pending"
